@@ -65,7 +65,7 @@ pub fn vector_set(vm: &mut Vm) -> Result<VCell, Error> {
     let value = vm.stack.pop()?.clone();
     let idx = pop_index(vm, "vector-set!")?;
     let vector = pop_vector(vm)?;
-    if idx > vector.len() - 1 {
+    if idx >= vector.len() {
         return Err(InvalidVectorIndex(idx, vector.len()));
     }
     vector.put(idx, value);
